@@ -783,6 +783,20 @@ func hasKeyPolarity(c *Ctx, r *Report) {
 		}
 		return true
 	})
+	// boolean locals that carry the answer (`found := false … found = true … return found`)
+	answer := map[types.Object]bool{}
+	walkNoLit(hk.Body, func(n ast.Node) bool {
+		if as, ok := n.(*ast.AssignStmt); ok && len(as.Lhs) == 1 && len(as.Rhs) == 1 {
+			if id, ok := as.Lhs[0].(*ast.Ident); ok {
+				if rid, ok := ast.Unparen(as.Rhs[0]).(*ast.Ident); ok && (rid.Name == "true" || rid.Name == "false") {
+					if o := p.ObjOf(hk, id); o != nil && !flag[o] {
+						answer[o] = true
+					}
+				}
+			}
+		}
+		return true
+	})
 	hf := &Flow{P: p, Fn: hk, Entry: Facts{}}
 	hf.Node = func(n ast.Node, f Facts) {
 		for _, id := range assignedIdents(n) {
@@ -791,6 +805,38 @@ func hasKeyPolarity(c *Ctx, r *Report) {
 				delete(f, "notfound")
 			}
 		}
+		walkNoLit(n, func(nd ast.Node) bool {
+			as, ok := nd.(*ast.AssignStmt)
+			if !ok || len(as.Lhs) != 1 || len(as.Rhs) != 1 {
+				return true
+			}
+			id, ok := as.Lhs[0].(*ast.Ident)
+			if !ok || !answer[p.ObjOf(hk, id)] {
+				return true
+			}
+			k := "fine|" + p.ID(p.ObjOf(hk, id))
+			rid, _ := ast.Unparen(as.Rhs[0]).(*ast.Ident)
+			switch {
+			case rid != nil && rid.Name == "true":
+				// one path fact: the variable says "present" and a positive finding was made
+				f["true|"+p.ID(p.ObjOf(hk, id))] = true
+				if f["found"] {
+					f[k] = true
+				} else {
+					delete(f, k)
+				}
+			case rid != nil && rid.Name == "false":
+				delete(f, "true|"+p.ID(p.ObjOf(hk, id)))
+				if f["notfound"] {
+					f[k] = true
+				} else {
+					delete(f, k)
+				}
+			default:
+				delete(f, k)
+			}
+			return true
+		})
 	}
 	hf.Edge = func(cond ast.Expr, taken bool, f Facts) {
 		for _, a := range splitCond(cond, taken) {
@@ -810,6 +856,14 @@ func hasKeyPolarity(c *Ctx, r *Report) {
 						f["notfound"] = true
 					case errv[o] && !isNil:
 						f["notfound"] = true
+					}
+					// an answer variable still saying "absent" is right on a path with a negative finding
+					if f["notfound"] {
+						for a := range answer {
+							if !f["true|"+p.ID(a)] {
+								f["fine|"+p.ID(a)] = true
+							}
+						}
 					}
 				}
 			}
@@ -832,8 +886,14 @@ func hasKeyPolarity(c *Ctx, r *Report) {
 			case "false":
 				ok, why = at["notfound"], "'absent' is answered without a negative finding on this path"
 			default:
-				ok = flag[p.ObjOf(hk, x)]
-				why = "the answer is a variable that is not the found-flag of a lookup"
+				o := p.ObjOf(hk, x)
+				if answer[o] {
+					ok = at["fine|"+p.ID(o)]
+					why = "the answer variable " + x.Name + " is not backed by a finding on every path (set to true without a positive finding, or left false without a negative one)"
+				} else {
+					ok = flag[o]
+					why = "the answer is a variable that is not the found-flag of a lookup"
+				}
 			}
 		case *ast.BinaryExpr:
 			// the finding itself: value != nil
